@@ -210,6 +210,8 @@ K void k_load_arr_llong3(uint64_t base, uint64_t p) { S::g_base = base; auto t =
   env_log(1, (uint64_t)v[0].UNSAFE_unverified(), (uint64_t)v[1].UNSAFE_unverified(), (uint64_t)v[2].UNSAFE_unverified()); }
 K void k_store_elem_llong(uint64_t base, uint64_t p, uint32_t i, long long v) { S::g_base = base; auto t = mk_tainted<long long(*)[3], S>(p); (*t)[i] = v; }
 K void k_store_elem_long(uint64_t base, uint64_t p, uint32_t i, long v) { S::g_base = base; auto t = mk_tainted<long(*)[3], S>(p); (*t)[i] = v; }
+K void k_store_pidx_long(uint64_t base, uint64_t p, int i, long v) { S::g_base = base; auto t = mk_tainted<long*, S>(p); t[i] = v; }        // reference p[i], i of either sign
+K uint64_t k_load_pidx_long(uint64_t base, uint64_t p, int i) { S::g_base = base; auto t = mk_tainted<long*, S>(p); tainted<long, S> r = t[i]; return (uint64_t)r.UNSAFE_unverified(); }
 K void k_store_field_a(uint64_t base, uint64_t p, long v) { S::g_base = base; auto t = mk_tainted<VS24*, S>(p); t->a = v; }
 K void k_store_field_c(uint64_t base, uint64_t p, int v) { S::g_base = base; auto t = mk_tainted<VS24*, S>(p); t->c = v; }
 K uint64_t k_load_field_a(uint64_t base, uint64_t p) { S::g_base = base; auto t = mk_tainted<VS24*, S>(p); tainted<long, S> x = t->a; return (uint64_t)x.UNSAFE_unverified(); }
@@ -351,6 +353,28 @@ def check_agg(ctx, k, log=32):
         ctx.only(paths, "ret")
         ctx.expect(paths, ret=1)
         ctx.validate(k, [[b0, b0 + 0x40, j, 0x12345678] for j in range(3)], base=b0)
+    elif k in ("k_store_pidx_long", "k_load_pidx_long"):
+        fit(4)
+        i = ctx.sym("i", 32)
+        ctx.assume(sext(i, 64) >= -3, sext(i, 64) <= 3)
+        lo = p + sext(i, 64) * 4
+        ctx.assume(z3.UGE(lo, base), z3.ULE(lo - base, BV(size - 4, 64)))        # the designated element lies inside the region
+        if k == "k_store_pidx_long":
+            v = ctx.sym("v", 64)
+            ctx.assume(sext(v, 128) >= -(1 << 31), sext(v, 128) < (1 << 31))
+            paths = ctx.run(k, [base, p, i, v])
+            for q in paths:
+                if q.status == "ret":
+                    ctx.require(q, z3.And(decode(q.mem, lo, 4) == z3.Extract(31, 0, v), unchanged(q, lo, 4)),
+                                "a store through the reference p[i] (i of either sign) changes exactly the guest bytes of element i")
+            ctx.validate(k, [[b0, b0 + 0x40, j & 0xFFFFFFFF, 0x12345678] for j in (-2, -1, 0, 1, 2)], base=b0)
+        else:
+            paths = ctx.run(k, [base, p, i])
+            for q in paths:
+                if q.status == "ret":
+                    ctx.require(q, q.ret == sext(decode(mem0, lo, 4), 64), "a load through the reference p[i] (i of either sign) decodes the guest bytes of element i")
+        ctx.only(paths, "ret")
+        ctx.expect(paths, ret=1)
     elif k in ("k_store_field_a", "k_store_field_c"):
         fit(12)
         off = 0 if k.endswith("_a") else 8
@@ -601,7 +625,7 @@ def check_noop(ctx, k):
     ctx.expect(paths, ret=1)
 
 
-AGG = ["k_store_arr_llong3", "k_load_arr_llong3", "k_store_elem_llong", "k_store_arr_int3", "k_store_arr_long3", "k_store_arr_long22", "k_load_arr_long22", "k_load_arr_long3", "k_store_elem_long", "k_store_field_a", "k_store_field_c",
+AGG = ["k_store_pidx_long", "k_load_pidx_long", "k_store_arr_llong3", "k_load_arr_llong3", "k_store_elem_llong", "k_store_arr_int3", "k_store_arr_long3", "k_store_arr_long22", "k_load_arr_long22", "k_load_arr_long3", "k_store_elem_long", "k_store_field_a", "k_store_field_c",
        "k_load_field_a", "k_load_field_c", "k_store_ptrarr2", "k_store_struct", "k_load_struct", "k_store_field_b", "k_load_field_b"]
 
 
